@@ -16,6 +16,7 @@ import common  # noqa: E402
 from common import EVIDENCE, Infra, Outcome, write_replay  # noqa: E402
 import audit as audit_mod  # noqa: E402
 import findings as findings_mod  # noqa: E402
+import branches  # noqa: E402
 
 TRUSTED_BASE = [
     "Lean 4.33.0 kernel; Mathlib v4.33.0 as compiled on this image",
@@ -202,6 +203,8 @@ def main() -> int:
             "excluded_near_tie": out.excluded_near_tie, "model_impl_mismatches": len(out.mismatches),
             "known_findings_reproduced": {k: f.hits for k, f in getattr(out, "findings", {}).items()},
             "stats": out.stats, "explanation": getattr(mod, "EXPLANATION", ""),
+            # which paths of the MODEL's step functions the traces compared with the implementation took (tags: lean/FrourosModel/Branch.lean; universe: harness/branches.py)
+            "model_branches": branches.report(out.branches),
         },
         "assumptions": getattr(mod, "ASSUMPTIONS", []) + out.notes,
         "wall_s": round(wall, 2), "violations": len(out.violations) + (1 if (out.mismatches and not out.violations) else 0) + (1 if proof_broken else 0),
